@@ -628,6 +628,8 @@ pub trait Personality: std::any::Any {
     /// length to report.
     fn complete(&mut self, q: u16, chain: &Chain, ctx: &mut DevCtx) -> u32;
     fn on_reset(&mut self) {}
+    /// A new chain became visible to the device on queue `q` (called by the observer).
+    fn on_published(&mut self, _q: u16, _chain: &Chain, _ctx: &mut DevCtx) {}
     /// The driver wrote `len` bytes at `off` of the configuration space.
     fn on_config_write(&mut self, _off: usize, _len: usize, _ctx: &mut DevCtx) {}
     fn as_any(&mut self) -> &mut dyn std::any::Any;
@@ -998,6 +1000,10 @@ impl World {
         if self.in_device {
             return;
         }
+        if kind != PointKind::Spin {
+            // the driver is doing something other than spinning
+            self.idle_spins = 0;
+        }
         crate::heapwatch::poll(self);
         if !self.cfg.device_active {
             if kind == PointKind::Spin {
@@ -1056,12 +1062,27 @@ impl World {
             std::panic::panic_any(AbortRun("violation recorded; leaving busy-wait"));
         }
         if self.idle_spins > self.cfg.spin_idle_limit {
+            let state: Vec<String> = (0..self.dq.len())
+                .filter(|q| self.tr.queues.get(*q).is_some_and(|r| r.ready))
+                .map(|q| {
+                    let d = &self.dq[q];
+                    format!(
+                        "q{q}: notified={} armed={} unfetched={} pending={}",
+                        d.notified,
+                        d.armed,
+                        self.avail_idx_mem(q as u16).map(|i| i != d.last_avail).unwrap_or(false),
+                        d.pending.len()
+                    )
+                })
+                .collect();
             self.violation(
                 "wait-never-ends",
                 "spin",
-                "driver busy-waits although the device has nothing it could do: it was never \
-                 told about the request (lost wake-up) or the request cannot complete"
-                    .into(),
+                format!(
+                    "driver busy-waits although the device has nothing it could do: it was never \
+                     told about the request (lost wake-up) or the request cannot complete [{}]",
+                    state.join("; ")
+                ),
             );
             std::panic::panic_any(AbortRun("busy-wait can never end"));
         }
